@@ -858,7 +858,7 @@ fn build_revocation_registry_map(
     Ok(rev_reg_map)
 }
 
-fn check_non_revoked_interval(
+pub(crate) fn check_non_revoked_interval(
     cred_def: &CredentialDefinition,
     attrs_nonrevoked_interval: Option<NonRevokedInterval>,
     pred_nonrevoked_interval: Option<NonRevokedInterval>,
@@ -869,37 +869,47 @@ fn check_non_revoked_interval(
     >,
     timestamp: Option<u64>,
 ) -> Result<()> {
-    if cred_def.value.revocation.is_some() {
-        // Collapse to the most stringent local interval for the attributes / predicates,
-        // we can do this because there is only 1 revocation status list for this credential
-        // if it satisfies the most stringent interval, it will satisfy all intervals
-        let interval = match (attrs_nonrevoked_interval, pred_nonrevoked_interval) {
-            (Some(attr), None) => Some(attr),
-            (None, Some(pred)) => Some(pred),
-            (Some(mut attr), Some(pred)) => {
-                attr.compare_and_set(&pred);
-                Some(attr)
-            }
-            _ => None,
-        };
-
-        let cred_nonrevoked_interval = get_requested_non_revoked_interval(
-            rev_reg_id,
-            interval.as_ref(),
-            pres_req.non_revoked.as_ref(),
-            nonrevoke_interval_override,
-        );
-
-        if let (Some(_), Some(cred_nonrevoked_interval)) = (
-            cred_def.value.revocation.as_ref(),
-            cred_nonrevoked_interval.as_ref(),
-        ) {
-            let timestamp = timestamp
-                .ok_or_else(|| err_msg!("Identifier timestamp not found for revocation check"))?;
-
-            cred_nonrevoked_interval.is_valid(timestamp)?;
-        }
+    // Whether non-revocation must be shown is decided by the credential definition the
+    // verifier holds, never by what the presentation says about itself.
+    if cred_def.value.revocation.is_none() {
+        return Ok(());
     }
+
+    // Collapse to the most stringent local interval for the attributes / predicates,
+    // we can do this because there is only 1 revocation status list for this credential
+    // if it satisfies the most stringent interval, it will satisfy all intervals
+    let local_interval = match (attrs_nonrevoked_interval, pred_nonrevoked_interval) {
+        (Some(attr), None) => Some(attr),
+        (None, Some(pred)) => Some(pred),
+        (Some(mut attr), Some(pred)) => {
+            attr.compare_and_set(&pred);
+            Some(attr)
+        }
+        _ => None,
+    };
+
+    // the request-wide interval applies when there is no local one
+    let interval = match local_interval.or_else(|| pres_req.non_revoked.clone()) {
+        Some(interval) => interval,
+        None => return Ok(()),
+    };
+
+    let rev_reg_id = rev_reg_id.ok_or_else(|| {
+        err_msg!("Identifier revocation registry id not found for revocation check")
+    })?;
+    let timestamp = timestamp
+        .ok_or_else(|| err_msg!("Identifier timestamp not found for revocation check"))?;
+
+    // Override Interval if an earlier `from` value is accepted by the verifier
+    let interval = get_requested_non_revoked_interval(
+        Some(rev_reg_id),
+        Some(&interval),
+        None,
+        nonrevoke_interval_override,
+    )
+    .unwrap_or(interval);
+
+    interval.is_valid(timestamp)?;
 
     Ok(())
 }
